@@ -1,4 +1,6 @@
--- stub: component `num` not built yet
+import Driver.Num
+open Driver
+
 def main : IO UInt32 := do
-  IO.eprintln "driver-num: not implemented"
-  return 2
+  runComponent () Num.step
+  return 0
